@@ -315,5 +315,16 @@ def replay(p):
             return True, f"scheme * {kk} raised {type(e).__name__}: {e}"
         bad = s2 is sc or [list(sc.b_vector), list(sc.t_vector)] != before or \
             any(abs(n - o * kk) > 1e-9 for n, o in zip(s2.b_vector + s2.t_vector, before[0] + before[1]))
-        return bad, f"{before} * {kk} -> {s2}"
+        if bad:
+            return True, f"{before} * {kk} -> {s2}"
+        from corankco.kemeny_score_computation import KemenyComputingFactory
+        from corankco.ranking import Ranking
+        for lvs, cand in [(((0, 1, 2), (2, -1, 0)), (0, 0, 1)), (((0, 0, -1), (-1, 0, 1), (1, 0, 0)), (1, 0, 2)), (((-1, -1, 0),), (0, 0, 0))]:
+            ds = shapes.build(lvs, [1, 2, 3])
+            r = Ranking([{e + 1 for e in b} for b in spec.buckets_of(cand)])
+            a = KemenyComputingFactory(sc).get_kemeny_score(r, ds)
+            b = KemenyComputingFactory(s2).get_kemeny_score(r, ds)
+            if abs(b - kk * a) > 1e-9 * max(1.0, abs(b)):
+                return True, f"score under {s2} is {b}, expected {kk} * {a}"
+        return False, f"{before} * {kk} -> {s2}, scores scale"
     raise harness.HarnessError("unknown kind")
